@@ -26,6 +26,8 @@ def make_pool(rng: random.Random, k: int, depth: int, names=("x", "y")) -> list:
             other = rng.choice(pool)
             e = rng.choice([X.Add(e, other), X.Multiply(other, e), X.Divide(e, X.Add(other, X.Constant(3))),
                             X.Minus(other, e), X.Power(X.Add(X.NthPower(other, 2), X.Constant(1)), e)])
+        elif rng.random() < 0.35:
+            e = rng.choice(gen.twin_patterns(g))[1]      # equal operands that are distinct objects
         pool.append(e)
     return pool
 
